@@ -22,7 +22,7 @@ CHECKS = {
    "notify flag 0/1 only; handlers return; the handler's own answer is predicted by running the same handler in-process.",
    "DESIGN.md §4 C03"),
  "C04": ("exploration",
-   "property-based + bounded-exhaustive schedule generation against a scripted peer: all K! reply orders (K<=5 quick / 6 thorough) for three clients, random valid interleavings of receive/answer events up to K=64 with injected unknown-id, duplicate and notify-reuse frames; self-identifying response bodies as oracle; a verif-hooks probe (client.written) holds the caller after its write until the response has been processed (overtake sub-check)",
+   "property-based + bounded-exhaustive schedule generation against a scripted peer: all K! reply orders (K<=5 quick / 6 thorough) for three clients, random valid interleavings of receive/answer events up to K=64 with injected unknown-id, duplicate and notify-reuse frames; self-identifying response bodies as oracle; a verif-hooks probe (client.written) holds the caller after its write until the response has been processed (overtake sub-check); a call whose body fails to serialize between other calls (failed-body)",
    "Each of K concurrent calls must return the body that names its own path, batch results must be positional, injected notifies must reach only the subscriber (exactly once), and all ids on a connection must be distinct, for every generated reply order and injection pattern on Client, AsyncClient and WebSocketClient (async clients on a multi-thread runtime so reader and callers run in parallel).",
    "Thread/task interleavings are sampled by the OS scheduler, not enumerated; the model-checking clause of the quantifier is outside this technique.",
    "DESIGN.md §4 C04"),
@@ -53,7 +53,7 @@ CHECKS = {
    "DESIGN.md §4 C08"),
  "C10": ("fault_enumeration",
    "generated failure matrix (proptest) against the library's producers and a harness-owned scripted SVS server, crash-point enumeration by killing a child process at every commit-path probe hit, and SIGKILL at generated times; filesystem state as oracle",
-   "For ten pullers, six failure kinds (producer failure at chunk boundaries +-1, connection cut after every k-th response, rejecting verifier, over-long trailer, incompatible output), absent or pre-existing destinations and both compressions: a failure returns Err, leaves the destination byte-identical to its prior state and leaves no .svspart file; success publishes exactly the complete content (trailer stripped). A child process that runs the same pull and dies (_exit) at every probe hit before the rename leaves the destination unchanged, after it the complete content; SIGKILL at generated times leaves it unchanged or complete; after any interrupted pull a later successful pull of shorter content to the same destination publishes exactly that content.",
+   "For ten pullers, six failure kinds (producer failure at chunk boundaries +-1, connection cut after every k-th response, rejecting verifier, over-long trailer, incompatible output), absent or pre-existing destinations and both compressions: a failure returns Err, leaves the destination byte-identical to its prior state and leaves no .svspart file; success publishes exactly the complete content (trailer stripped). A child process that runs the same pull and dies (_exit) at every probe hit before the rename leaves the destination unchanged, after it the complete content; SIGKILL at generated times leaves it unchanged or complete; after any interrupted pull a later successful pull of shorter content to the same destination publishes exactly that content. Producers also fail by panicking; digest writers may be slow.",
    "Crash points are the verif-hooks probes on the commit path plus unhooked SIGKILLs; power-loss durability of sync_all is not observable.",
    "DESIGN.md §4 C10"),
  "C11": ("exploration",
@@ -63,7 +63,7 @@ CHECKS = {
    "DESIGN.md §4 C11"),
  "C12": ("exploration",
    "randomized real-thread schedule generation (proptest) with a schedule-independent final-state oracle and a watchdog",
-   "At least 12 000 (quick) generated schedules of one waiter against 1-3 signaller threads, in parked-first (missing notify is deterministic) and racing start orders; if the final state satisfies the waiter's predicate it must have returned within a 10 s watchdog, else a harness cancel must release it; deadline cases must time out not earlier than the deadline. Interleavings are sampled, not enumerated.",
+   "At least 12 000 (quick) generated schedules of one waiter against 1-3 signaller threads, in parked-first (missing notify is deterministic) and racing start orders; if the final state satisfies the waiter's predicate it must have returned within a 10 s watchdog, else a harness cancel must release it; deadline cases must time out not earlier than the deadline, and not much later while another thread issues non-satisfying wake-ups (confirmed twice); a producer parked on a full window returns with credit when the receiver resumes at any boundary up to everything sent. Interleavings are sampled, not enumerated.",
    "Real OS scheduling; the lock-step model-checking clause of the quantifier is outside this technique (DESIGN.md §9).",
    "DESIGN.md §4 C12"),
  "C13": ("exploration",
@@ -93,7 +93,7 @@ CHECKS = {
    "DESIGN.md §4 C17"),
  "C18": ("exploration",
    "model-based testing: bounded-exhaustive sequences (3 peers x 3 keys) + proptest histories against a map model, Wing-Gong linearizability search for concurrent histories; coverage-guided libFuzzer twin of the sequential model check (c18_peers) in thorough",
-   "After every step get/get_by/key_for/aliases_for/len/peers for every peer and key must equal the model; every broadcast must deliver exactly one notify (path, body, format) to each present peer and report one result per present peer, with refusing sinks; concurrent 4-thread histories plus a final full observation must be linearizable.",
+   "After every step get/get_by/key_for/aliases_for/len/peers for every peer and key must equal the model; every broadcast must deliver exactly one notify (path, body, format) to each present peer and report one result per present peer, with refusing sinks; concurrent 4-thread histories plus a final full observation must be linearizable; the same broadcast clause through the WebSocket server's own peer sinks (every body-format tag as received by raw clients).",
    "insert only for absent ids (documented precondition). Interleavings sampled; each observed history decided exhaustively.",
    "DESIGN.md §4 C18"),
  "C19": ("fault_enumeration",
